@@ -467,3 +467,14 @@ package manager
 //@   noframe
 //@   ensures queued: implies(isnil(result) && len(tag.converters) != old(len(tag.converters)), ncalls("(*github.com/spq/pkappa2/internal/tools/bitmask.LongBitmask).Or") == 1)
 
+// Paging through a view: page p of a search starts at p times the page size that is actually used (the query's own
+// limit when it has one, the caller's default otherwise) - consecutive pages hand out every stream exactly once.
+// (Stated for products below 2^64: the spec's product is mathematical, the code's wraps.)
+//@ func (*View).SearchStreams
+//@   prop C10
+//@   nosafety
+//@   noframe
+//@   cutloops
+//@   assert before call github.com/spq/pkappa2/internal/index.SearchStreams#1: page_size@C10: arg7 == ite(isnil(filter.Limit), opts.defaultLimit, *filter.Limit)
+//@   assert before call github.com/spq/pkappa2/internal/index.SearchStreams#1: page_start@C10: implies(0 <= opts.page * arg7 && opts.page * arg7 < 18446744073709551616, arg8 == opts.page * arg7)
+//@   assert before call github.com/spq/pkappa2/internal/index.SearchStreams#1: whole_view@C10: same_slice(arg1, v.indexes) && isnil(arg2)
